@@ -81,9 +81,10 @@ static Json runWorldHere(const Json &plan, bool trace) {
 // ---- sanitizer report parsing (parent side)
 static std::string repoFrame(const std::string &line) {
     // "... in func /repo/cola/libavoid/router.cpp:233" -> libavoid/router.cpp:233
-    size_t p = line.find("/repo/cola/");
+    // any checkout location: .../cola/lib<name>/...
+    size_t p = line.find("/cola/lib");
     if (p == std::string::npos) return "";
-    std::string s = line.substr(p + 11);
+    std::string s = line.substr(p + 6);
     size_t e = s.find_first_of(" \n)");
     if (e != std::string::npos) s = s.substr(0, e);
     // drop column
@@ -101,7 +102,7 @@ static std::string repoFile(const std::string &line) {
 static std::string repoFrameFunc(const std::string &line) {
     std::string file = repoFile(line);
     if (file.empty()) return "";
-    size_t a = line.find(" in "), b = line.find(" /repo/cola/");
+    size_t a = line.find(" in "), b = line.find("/cola/lib"); if (b != std::string::npos) b = line.rfind(' ', b);
     std::string fn = a != std::string::npos && b != std::string::npos && b > a + 4 ? sigFunc(line.substr(a + 4, b - a - 4)) : "?";
     return file + ":" + fn;
 }
